@@ -497,6 +497,7 @@ BV.__and__ = _guard(lambda s, o: band(s, o)); BV.__rand__ = _guard(lambda s, o: 
 BV.__xor__ = _guard(lambda s, o: bxor(s, o)); BV.__rxor__ = _guard(lambda s, o: bxor(o, s))
 BV.__or__ = _guard(lambda s, o: bor(s, o)); BV.__ror__ = _guard(lambda s, o: bor(o, s))
 BV.__neg__ = lambda s: neg(s)
+BV.__rpow__ = lambda s, o: o ** int(s)
 BV.__eq__ = _guard(lambda s, o: cmp('eq', s, o)); BV.__ne__ = _guard(lambda s, o: cmp('ne', s, o))
 BV.__lt__ = _guard(lambda s, o: cmp('lt', s, o)); BV.__le__ = _guard(lambda s, o: cmp('le', s, o))
 BV.__gt__ = _guard(lambda s, o: cmp('gt', s, o)); BV.__ge__ = _guard(lambda s, o: cmp('ge', s, o))
